@@ -51,7 +51,7 @@ uint64_t Runner<A>::constOp(const G &gr, const Model &mo, const sim::Op &op, con
     long clock = 0;
     const std::function<void()> *y = env.yield ? &env.yield : nullptr;
     Counting<G> cg(gr, &clock, -1, y);
-    int which = (int)modn(op.x, 16);
+    int which = (int)modn(op.x, 18);
     bool weightsOk = true;
     if constexpr (kind == WEIGHTED) for (auto &kv : mo.e) if (kv.second.val < 0) weightsOk = false;
     if (kind == WEIGHTED && weightsOk && (which == 1 || which == 2 || which == 5)) which = 7; // weighted classes: mostly Dijkstra
@@ -181,6 +181,23 @@ uint64_t Runner<A>::constOp(const G &gr, const Model &mo, const sim::Op &op, con
         }
         case 14: {
             if constexpr (kind == SIMPLE || kind == LABELED) { env.dirty = true; dg.u64(writeBoth(gr, env.dir + "/" + tag)); }
+            break;
+        }
+        case 16: {
+            // const calls that are rejected: the exception text each thread gets must be the single-threaded one
+            const unsigned bads[3] = {n, n + 1, 4294967295u};
+            for (unsigned bad : bads) {
+                try { (void)gr.getOutNeighbours(bad); dg.tag("returned"); } catch (const std::exception &ex) { dg.tag(ex.what()); }
+                try { (void)gr.hasEdge(va, bad); dg.tag("returned"); } catch (const std::exception &ex) { dg.tag(ex.what()); }
+                try { (void)gr.hasEdge(bad, vb); dg.tag("returned"); } catch (const std::exception &ex) { dg.tag(ex.what()); }
+            }
+            break;
+        }
+        case 17: {
+            // hand-written edge loop that asks the graph for edges() again at every step (temporaries)
+            size_t c = 0;
+            for (auto it = gr.edges().begin(); it != gr.edges().end(); ++it) { auto e = *it; dg.u64(e.first); dg.u64(e.second); ++c; }
+            dg.u64(c);
             break;
         }
         case 15: {
